@@ -629,6 +629,9 @@ package parse
 //@   ensures ok: err == nil ==> good(r0)
 
 //@ func parse.(*Tree).parseRightTestOperand
+// C20: the parser raises positioned errors only (line, column, template name): no bare errors.New / fmt.Errorf
+//@   never "errors.New(" positioned
+//@   never "fmt.Errorf(" positioned
 // C14: inside delimiters a raw next() / peek() (one that does not skip blanks) never meets a blank - except where a
 // number literal looks for its fraction point (tokens that can merge)
 //@   at? "t.next()" nows: !isWS(tokAt(t, tcur(t)))
@@ -780,6 +783,9 @@ package parse
 //@   loop 1 decreases left(t)
 
 //@ func parse.parseFor
+// C20: the parser raises positioned errors only (line, column, template name): no bare errors.New / fmt.Errorf
+//@   never "errors.New(" positioned
+//@   never "fmt.Errorf(" positioned
 // C14: inside delimiters a raw next() / peek() (one that does not skip blanks) never meets a blank - except where a
 // number literal looks for its fraction point (tokens that can merge)
 //@   at? "t.next()" nows: !isWS(tokAt(t, tcur(t)))
